@@ -35,7 +35,7 @@ def body(c, ctx):
     elif pre == 'mirrored' and kind in ('tri', 'quad') and desc['cls'].endswith('1'):
         normal = (1.0, 0.0)
         m = m.mirrored(normal)
-    elif pre == 'restrict' and m.nelements > 2 and desc['cls'].endswith('1'):
+    elif pre == 'restrict' and m.nelements > 2:
         m = m.restrict(np.arange(m.nelements - 1))
     else:
         pre = 'none'
